@@ -416,7 +416,37 @@ def s_units_population(ctx):
         u.mismatches.append(dict(case=cases[i], note="a population member's evaluate differs from the model (or the member recorded another position than the one evaluated)"))
 
 
+def pre_build_tracker(ctx):
+    """Regenerate generated/TrackerGen.v from /repo's source before the Coq build (C15, C19)."""
+    import translate_core
+    ctx._tracker_gen = translate_core.translate()
+
+
+def g_unit(ctx):
+    """The source translator of the tracker layer: reports whether the translation went through; the tie between the
+    generated definitions and the model is a proof obligation (proofs/TrackerTie.v), re-checked by the build."""
+    u = ctx.unit("G:tracker source translator", "translator",
+                 "ast translation of search_tracker.SearchTracker (all methods, properties, decorators), CoreOptimizer.evaluate_init, "
+                 "BaseOptimizer.evaluate, HillClimbingOptimizer.evaluate (+ pinned max_list_idx), Spiral.evaluate into "
+                 "generated/TrackerGen.v (fail-closed); the refinement generated code -> model (proofs/TrackerTie.v, for all states) "
+                 "and the grounding theorem for the generated code (proofs/SourceTracker.v) are compiled with the property's "
+                 "theorem file; one case per translated method")
+    info = getattr(ctx, "_tracker_gen", None)
+    if info is None:
+        u.error = "translator did not run (see pre-build)"
+        return
+    for m in info["methods"]:
+        u.count(m, nontrivial=not m.split(".")[1].startswith(("get:", "set:")))
+    u.exhaustive = True
+    u.samples = [dict(source_digest=info["digest"], generated_sha1=info["text_sha1"], methods=len(info["methods"]))]
+    if not info["ok"]:
+        u.mismatches.append(dict(case=dict(translator_abort=info["error"]),
+                                 note="the source of the tracker layer left the translated subset: the generated model could not be rebuilt"))
+
+
 def run(ctx, which="ALL"):
+    if which in ("C15", "C19"):
+        g_unit(ctx)
     if which in ("C01", "C02", "C08", "ALL"):
         k_units(ctx)
     if which in ("C01", "ALL"):
